@@ -368,7 +368,10 @@ func ratOf(s string) *big.Rat {
 
 var numLits = []string{"0", "1", "7", "12.7", "0.5", "2.5", "-3.9", "100", "127", "128", "255", "-128", "-129", "32767", "40000",
 	"2147483647", "3000000000", "9007199254740993", "123456789.987654321", "0.99999999999999999999", "1e3", "1.5e2", "-0.5", "-0.99", "1.0000000000000000001",
-	"1e-30", "3e33", "2e-25", "7e-23", "1e22", "1e23", "5e-324", "1.7976931348623157e308", "9e-7"}
+	"1e-30", "3e33", "2e-25", "7e-23", "1e22", "1e23", "5e-324", "1.7976931348623157e308", "9e-7",
+	// the mantissas around 2^53 and 2^63/2^64 with the decimal point moved
+	"90071992547409.93", "9007199254740.993", "0.9007199254740993", "-90071992547409.93", "90071992547409.91", "90071992547409.92", "90071992547409.94",
+	"9007199254740992", "9007199254740994", "92233720368547758.07", "184467440737095516.15", "9223372036854775807", "4503599627370497.5", "0.1", "0.3", "2.675"}
 
 type bgen struct {
 	s     *Stream
@@ -823,6 +826,12 @@ func bridgeOnce(rc *RunCtx, wl, fl *Stream, primary bool) {
 	sample := &bridgeSample{}
 	for i := 0; i < 1+wl.Intn(nFuncs); i++ {
 		nm := "h" + strconv.Itoa(i)
+		if wl.Intn(6) == 0 { // a host function whose name differs from a builtin's only by letter case
+			alt := []string{"Max", "LEN", "Upper", "Abs", "Join", "Left", "Round", "toint"}[wl.Intn(8)]
+			if _, taken := w.funcs[alt]; !taken {
+				nm = alt
+			}
+		}
 		f := genBFunc(wl, nm, maxParams)
 		w.funcs[nm] = f
 		names = append(names, nm)
